@@ -387,15 +387,35 @@ def setup():
     return rc
 
 
+def coqchk():
+    """independent re-check of every compiled Properties module (and all they depend on)"""
+    import subprocess
+    ok, mlog = vlib.coq_make(timeout=7200)
+    mods = ["Synnax.Properties." + f[:-3] for f in sorted(os.listdir(os.path.join(vlib.COQ, "theories", "Properties")))
+            if f.endswith(".v") and os.path.exists(os.path.join(vlib.COQ, "theories", "Properties", f + "o"))]
+    t = time.time()
+    r = subprocess.run(["coqchk", "-silent", "-o", "-Q", "theories", "Synnax", *mods], cwd=vlib.COQ,
+                       stdout=subprocess.PIPE, stderr=subprocess.STDOUT, text=True)
+    out = r.stdout
+    with open(os.path.join(vlib.BUILD, "coqchk.log"), "w") as fh:
+        fh.write("modules: %s\nwall_s: %.0f\nrc: %d\n\n%s" % (" ".join(mods), time.time() - t, r.returncode, out))
+    print(out[-3000:])
+    print("coqchk rc=%d wall=%.0fs modules=%d" % (r.returncode, time.time() - t, len(mods)))
+    return r.returncode
+
+
 def main():
     ap = argparse.ArgumentParser()
     ap.add_argument("pid", nargs="?")
     ap.add_argument("--tier", default=os.environ.get("VERIF_TIER", "quick"))
     ap.add_argument("--replay")
     ap.add_argument("--setup", action="store_true")
+    ap.add_argument("--coqchk", action="store_true")
     a = ap.parse_args()
     if a.setup:
         sys.exit(setup())
+    if a.coqchk:
+        sys.exit(coqchk())
     if not a.pid:
         ap.error("property id required")
     seed = int(os.environ.get("VERIF_SEED", "1") or "1")
